@@ -244,3 +244,80 @@ Lemma buf_top_bit_negative :
   /\ indexed_ok false 4 (buf_to_int64 [128; 0; 0; 0; 0; 0; 0; 0]%N) = false
   /\ buf_to_int64 [255; 255]%N = 65535%Z.
 Proof. vm_compute. repeat split; reflexivity. Qed.
+
+(* ------------------------------------------------------------------ BER length / end-of-contents *)
+
+Lemma getb_in : forall ber i, (0 <= i < Z.of_nat (length ber))%Z -> exists b, getb ber i = Some b.
+Proof.
+  intros ber i H. unfold getb. destruct (Z.ltb_spec i 0) as [Hn|Hn]; [lia|].
+  destruct (nth_error ber (Z.to_nat i)) as [b|] eqn:E; [exists b; reflexivity|].
+  apply nth_error_None in E. lia.
+Qed.
+
+Lemma slice_in : forall ber lo cnt, (0 <= lo)%Z -> (0 <= cnt)%Z -> (lo + cnt <= Z.of_nat (length ber))%Z ->
+  exists bs, slice ber lo cnt = Some bs.
+Proof.
+  intros ber lo cnt H1 H2 H3. unfold slice.
+  destruct (Z.ltb_spec lo 0); [lia|]. destruct (Z.ltb_spec cnt 0); [lia|].
+  destruct (Z.ltb_spec (Z.of_nat (length ber)) (lo + cnt)); [lia|]. simpl. eexists. reflexivity.
+Qed.
+
+Definition bytes_wf (ber : list N) : Prop := Forall (fun b => (b < 256)%N) ber.
+
+Lemma getb_wf : forall ber i b, bytes_wf ber -> getb ber i = Some b -> (b < 256)%N.
+Proof.
+  intros ber i b Hwf H. unfold getb in H. destruct (i <? 0)%Z; [discriminate|].
+  apply nth_error_In in H. unfold bytes_wf in Hwf. rewrite Forall_forall in Hwf. apply Hwf. exact H.
+Qed.
+
+Lemma land127 : forall b, N.land b 127 = (b mod 128)%N.
+Proof. intros b. change 127%N with (N.ones 7). rewrite N.land_ones. reflexivity. Qed.
+
+Lemma fold_len_nonneg : forall bs acc, (0 <= acc)%Z -> (0 <= fold_left (fun l b => (l * 256 + Z.of_N b)%Z) bs acc)%Z.
+Proof. induction bs as [|b bs IH]; intros acc H; simpl; [exact H | apply IH; lia]. Qed.
+
+(* readLength never indexes or slices outside [0, len), for EVERY byte string and EVERY int offset;
+   on success the length is non-negative and the cursor has advanced and stays inside the data *)
+Lemma read_length_safe : forall ber offset, bytes_wf ber ->
+  match read_length ber offset with
+  | LOOB => False
+  | LErr => True
+  | LOk len _ next => (0 <= len)%Z /\ (offset < next <= Z.of_nat (length ber))%Z
+  end.
+Proof.
+  intros ber offset Hwf. unfold read_length.
+  destruct (Z.ltb_spec offset 0) as [H0|H0]; simpl; [exact I|].
+  destruct (Z.leb_spec (Z.of_nat (length ber)) offset) as [H1|H1]; simpl; [exact I|].
+  destruct (getb_in ber offset ltac:(lia)) as [first Ef]. rewrite Ef.
+  pose proof (getb_wf _ _ _ Hwf Ef) as Hb.
+  destruct (N.eqb_spec first 128) as [E8|E8]; [split; lia|].
+  destruct (N.ltb_spec first 128) as [Hlt|Hge]; [split; lia|].
+  rewrite land127.
+  assert (Hcnt : (Z.of_N (first mod 128) = Z.of_N first - 128)%Z).
+  { assert (Hq : (first = 128 * 1 + (first - 128))%N) by lia.
+    assert (Hm : (first mod 128 = first - 128)%N).
+    { symmetry. apply (N.mod_unique first 128 1); [lia | exact Hq]. }
+    rewrite Hm. lia. }
+  rewrite Hcnt.
+  destruct (Z.ltb_spec 4 (Z.of_N first - 128)) as [H4|H4]; [exact I|].
+  destruct (Z.ltb_spec (Z.of_nat (length ber) - (offset + 1)) (Z.of_N first - 128)) as [Hx|Hx]; [exact I|].
+  destruct (getb_in ber (offset + 1) ltac:(lia)) as [b0 Eb]. rewrite Eb.
+  destruct (b0 =? 0)%N; [exact I|].
+  destruct ((Z.of_N first - 128 =? 4)%Z && (127 <? b0)%N); [exact I|].
+  destruct (slice_in ber (offset + 1) (Z.of_N first - 128) ltac:(lia) ltac:(lia) ltac:(lia)) as [bs Es]. rewrite Es.
+  split; [apply fold_len_nonneg; lia | lia].
+Qed.
+
+Lemma is_indef_term_safe : forall ber offset, is_indef_term ber offset <> IOOB.
+Proof.
+  intros ber offset. unfold is_indef_term.
+  destruct (Z.ltb_spec offset 0) as [H0|H0]; simpl; [discriminate|].
+  destruct (Z.ltb_spec (Z.of_nat (length ber)) offset) as [H1|H1]; simpl; [discriminate|].
+  destruct (Z.ltb_spec (Z.of_nat (length ber) - offset) 2) as [H2|H2]; [discriminate|].
+  destruct (getb_in ber offset ltac:(lia)) as [a Ea]. destruct (getb_in ber (offset + 1) ltac:(lia)) as [b Eb].
+  rewrite Ea, Eb. discriminate.
+Qed.
+
+(* the weakened guard `offset < 0 || offset >= len(ber)` would read one past the end *)
+Lemma is_indef_term_needs_two : getb [48; 128; 2; 1; 1; 0]%N 6 = None /\ is_indef_term [48; 128; 2; 1; 1; 0]%N 5 = IErr.
+Proof. vm_compute. split; reflexivity. Qed.
